@@ -59,6 +59,11 @@ type runObs struct {
 // standard input (intermediate refreshes happen) of a command that prints a snapshot.
 const kfPadding = "C03-snapshot-padding-history"
 
+// rare spark --cols n trims the table to its last n columns at every refresh; a row whose cells all fell out of
+// that window disappears from the table, but the renderer never clears the screen line it was drawn on, so the
+// final snapshot of input that arrived in bursts can show rows the same input read at once does not show
+const kfStale = "C03-spark-stale-rows"
+
 func isSeqReduce(in c03In) bool {
 	return in.Cmd == "reduce" && len(in.Args) == 4 && strings.HasPrefix(in.Args[3], "seq=")
 }
@@ -367,8 +372,18 @@ func mkCase(in c03In, idx int) Case {
 			kind = 5
 		}
 	}
+	// domain of the recorded finding C03-spark-stale-rows: spark with a column limit and a variant that lets the
+	// 100 ms refresh draw between bursts. There the snapshots of the burst variants are compared only in the strict
+	// twin (which carries the finding's tag); everything else of the case - exports, exit status, the snapshots of
+	// the other variants - is checked as usual
+	staleDomain := kind == 5 && hasRefreshVariant(in)
 	var snaps []string
-	for _, r := range runs {
+	expected := 0
+	for vi, r := range runs {
+		if staleDomain && !in.Strict && vi < len(in.Variants) && in.Variants[vi].StdinPauseMs > 0 {
+			continue
+		}
+		expected++
 		if in.Cmd != "analyze" && r.Code >= 0 {
 			b, _ := hex.DecodeString(r.Snap)
 			if len(b) > 12000 { // legitimate outputs of the generated corpora are far smaller; a longer one is cut (and then fails the comparison)
@@ -377,7 +392,7 @@ func mkCase(in c03In, idx int) Case {
 			snaps = append(snaps, "unhex "+H(b))
 		}
 	}
-	if len(snaps) != len(runs) {
+	if len(snaps) != expected {
 		snaps = nil
 	}
 	if kind == 0 {
@@ -417,7 +432,9 @@ func mkCase(in c03In, idx int) Case {
 			tags = append(tags, "reverse-files")
 		}
 	}
-	if in.Strict {
+	if in.Strict && staleDomain {
+		tags = append(tags, "kf:"+kfStale, "strict-snapshot-twin")
+	} else if in.Strict {
 		tags = append(tags, "kf:"+kfPadding, "strict-snapshot-twin")
 	}
 	kb, _ := json.Marshal(in)
